@@ -17,12 +17,35 @@ from ..common import Ctx, Machinery, chunks, pmap, workdir
 
 PID = "C13"
 SVID = {"sv1": 10, "sv2": "SVT", "svu": 999}
-ECID = {"ec1": 30, "ec2": "ECT", "ecu": 999}
+ECID = {"ec1": 30, "ec2": "ECT", "ecp": 1, "ecc": 31, "ecu": 999}
 ALID = {"al1": 40, "al2": 41, "alu": 999}
 SVN = {v: k for k, v in SVID.items()}
 ECN = {v: k for k, v in ECID.items()}
 ALN = {v: k for k, v in ALID.items()}
 NPRE, NPREEC = 5, 2
+
+
+def handler_class():
+    """An equipment whose constant 31 is served by the application (the documented override points)."""
+    import secsgem.gem
+
+    class Eq(secsgem.gem.GemEquipmentHandler):
+        def __init__(self, *a, **k):
+            super().__init__(*a, **k)
+            self.app_store = {31: 5}
+
+        def on_ec_value_request(self, equipment_constant_id, equipment_constant):
+            if equipment_constant.ecid in self.app_store:
+                return equipment_constant.value_type(self.app_store[equipment_constant.ecid])
+            return super().on_ec_value_request(equipment_constant_id, equipment_constant)
+
+        def on_ec_value_update(self, equipment_constant_id, equipment_constant, value):
+            if equipment_constant.ecid in self.app_store:
+                self.app_store[equipment_constant.ecid] = int(value)
+                return
+            super().on_ec_value_update(equipment_constant_id, equipment_constant, value)
+
+    return Eq
 
 
 def ident(x):
@@ -36,7 +59,8 @@ def setup(h):
     h.status_variables.update({10: secsgem.gem.StatusVariable(10, "sv one", "u", var.U4, False),
                                "SVT": secsgem.gem.StatusVariable("SVT", "sv two", "u", var.U4, False)})
     h.equipment_constants.update({30: secsgem.gem.EquipmentConstant(30, "ec one", 0, 10, 5, "u", var.I4, False),
-                                  "ECT": secsgem.gem.EquipmentConstant("ECT", "ec two", None, None, 5, "u", var.I4, False)})
+                                  "ECT": secsgem.gem.EquipmentConstant("ECT", "ec two", None, None, 5, "u", var.I4, False),
+                                  31: secsgem.gem.EquipmentConstant(31, "ec app", 0, 100, 5, "u", var.I4, True)})
     h.alarms.update({40: secsgem.gem.Alarm(40, "al one", "text1", 1, 140, 141),
                      41: secsgem.gem.Alarm(41, "al two", "text2", 2, 142, 143)})
 
@@ -61,7 +85,8 @@ def run_walk(tid, inputs, seed):
 
     def main(s):
         import secsgem.common
-        ep = hsmsrun.Ep(mode="passive", kind="equipment", device_type=secsgem.common.DeviceType.EQUIPMENT)
+        ep = hsmsrun.Ep(mode="passive", kind="equipment", device_type=secsgem.common.DeviceType.EQUIPMENT, handler_cls=handler_class(),
+                        settings={"establish_communication_timeout": 30})
         h = ep.handler
         setup(h)
         if not hsmsrun.establish(s, ep):
@@ -161,7 +186,8 @@ def run_walk(tid, inputs, seed):
                 h.status_variables[SVID[inp["v"]]].value = inp["x"]
             else:
                 raise ValueError(k)
-            obs["ec"] = {"ec1": h.equipment_constants[30].value, "ec2": h.equipment_constants["ECT"].value}
+            obs["ec"] = {"ec1": h.equipment_constants[30].value, "ec2": h.equipment_constants["ECT"].value,
+                         "ecp": h.settings.establish_communication_timeout, "ecc": h.app_store[31]}
             obs["al"] = {n: {"en": bool(h.alarms[i].enabled), "set": bool(h.alarms[i].set)} for n, i in (("al1", 40), ("al2", 41))}
             rec["steps"].append({"inp": inp, "obs": obs})
 
@@ -232,5 +258,6 @@ def run(ctx: Ctx):
     ctx.rule = ("histories = random walks of 40 requests over the monitor alphabet (121 requests: id lists incl. unknown/repeated/"
                 "text ids, constants below/at/inside/above bounds, alarm enable/list/set/clear, value updates); thorough adds walks "
                 "covering the complete transition relation; non-trivial = distinct (request, observation) with content")
-    ctx.assumptions += ["predefined SVs/ECs (clock, ...) are masked except AlarmsEnabled / AlarmsSet; 2 user SVs, 2 ECs (one bounded), 2 alarms"]
+    ctx.assumptions += ["predefined SVs/ECs (clock, ...) are masked except AlarmsEnabled / AlarmsSet and EstablishCommunicationsTimeout; 2 user SVs, "
+                        "4 ECs (bounded, unbounded, predefined settings-backed, application-callback-backed), 2 alarms"]
     return ctx.finish()
